@@ -1503,6 +1503,8 @@ struct TransitionBase {
 	#pragma warning(pop)
 #endif
 
+#pragma pack(pop)
+
 template <typename TPayload>
 struct TransitionT final
 	: TransitionBase
@@ -1579,8 +1581,6 @@ struct TransitionT<void> final
 {
 	using TransitionBase::TransitionBase;
 };
-
-#pragma pack(pop)
 
 }
 
@@ -1708,6 +1708,8 @@ operator == (const TaskBase& lhs,
 		   lhs.destination == rhs.destination;
 }
 
+#pragma pack(pop)
+
 template <typename TPayload>
 struct TaskT final
 	: TaskBase
@@ -1757,8 +1759,6 @@ struct TaskT<void> final
 {
 	using TaskBase::TaskBase;
 };
-
-#pragma pack(pop)
 
 }
 }
